@@ -38,7 +38,7 @@ for p in props:
             "quick_cmd": "/usr/bin/python3 run_check.py %s --tier quick" % pid,
             "thorough_cmd": "/usr/bin/python3 run_check.py %s --tier thorough" % pid,
             "evidence_file": "/verif/evidence/%s.json" % pid,
-            "replay_cmd_template": "ls build/*/*/h_%s_* | head -1 | xargs -I@ @ --replay {path}" % pid,
+            "replay_cmd_template": "/usr/bin/python3 run_check.py %s --replay {path}   (add --tier thorough for a path recorded by the thorough tier)" % pid,
             "engine": "vx" + ("+vsched" if pid == "C06" else ""),
             "level_claimed": {"category": "model_checking", "text": text, "design_ref": "DESIGN.md section 6, " + pid},
             "level_note": note + "; bounds and counts of each run are in the evidence file; a deadline-capped run reports exhaustive:false",
